@@ -23,6 +23,11 @@ func TestLongPrune(t *testing.T) {
 	mismatch := func(sig, desc string) {
 		res.Mismatch(sig, fmt.Sprintf("long chain (seed %d): %s", seed, desc), map[string]any{"kind": "longprune", "seed": seed})
 	}
+	defer func() {
+		if r := recover(); r != nil {
+			mismatch("driver:c19:long:panic", fmt.Sprintf("the node panicked: %v", r))
+		}
+	}()
 	n := hx.EnvInt("VERIF_LONG_N", 3400)
 	l := mat.NewLedger(w.N, w.Genesis)
 	node := NewNode(w, false)
